@@ -45,6 +45,16 @@ def run(ctx, rep):
     from vflib.report import Shared
     from rules import c05
     c05.r3_r4(prog, ev, Shared(rep, {"C05-R3": "C14-R6"}, lender="C05", only_keys=["FilterAtom::Test"]))
+    # an argument written as a function call / query / literal reaches the hook as that kind of argument: no alternative of
+    # `function_argument` is swallowed by an earlier one (a nested length(..) parsed as a logical expression is handed over as
+    # true/false instead of its value)
+    from rules import c06
+    rep.rule("C14-R7", "arguments are parsed as what they are: in the grammar rule `function_argument` no alternative is shadowed "
+             "by an earlier one [analysis shared with C06-R2]")
+    if "function_argument" in ctx.grammar.rules:
+        c06.dead_alternatives(ctx, rep, "C14-R7", only_rule="function_argument")
+    else:
+        rep.unrecognised("C14-R7", "function_argument", "-", "grammar rule `function_argument` not found")
 
 
 def _walkall(x):
